@@ -451,6 +451,18 @@ def install(w):
     # ------------------------------------------------------------------ list methods
     def l_append(it, f, args, kw, node):
         L = it.st.lists[f.recv.oid]
+        mm = getattr(it, "mm_lists", {}).get(f.recv.oid)
+        if mm is not None:
+            mm.touched = True
+        if mm is not None and getattr(mm, "elem_spec", None) is None:
+            x = args[0]
+            if isinstance(x, VAtom):
+                try:
+                    o = sym.atom_obj(x)
+                    if isinstance(o, enum.Enum):
+                        mm.elem_spec = "atom:" + type(o).__module__ + "." + type(o).__qualname__
+                except KeyError:
+                    pass
         if L.items is not None:
             L.items.append(args[0])
             L.len = z3.IntVal(len(L.items))
@@ -568,6 +580,51 @@ def install(w):
             # live in it.st and are therefore visible to the caller
             it.st.env = saved
     B["closure"] = b_closure
+
+    # ------------------------------------------------------------------ abstract sets / multimaps
+    def b_set(it, f, args, kw, node):
+        use("set of hashable values: membership is abstracted (any answer), add/update are no-ops")
+        v = VOpaque("set")
+        v.abstract_set = True
+        return v
+    B["bi:set"] = b_set
+    B["bi:frozenset"] = b_set
+
+    def b_defaultdict(it, f, args, kw, node):
+        use("collections.defaultdict(list): abstracted multimap (items are lists of unknown length)")
+        v = VOpaque("defaultdict")
+        v.abstract_mm = True
+        return v
+    B["py:defaultdict"] = b_defaultdict
+
+    prev_construct = w.construct_ext
+
+    def construct_ext(it, cls, args, kwargs, node):
+        import collections
+        if cls is collections.defaultdict:
+            return b_defaultdict(it, None, args, kwargs, node)
+        if cls in (set, frozenset):
+            return b_set(it, None, args, kwargs, node)
+        return prev_construct(it, cls, args, kwargs, node)
+    w.construct_ext = construct_ext
+
+    def amm_items(it, f, args, kw, node):
+        from .world import Seq
+        n = it.fresh_int("mm_len")
+        it.assume(n.t >= 0)
+        v = VOpaque("mm_items")
+        mm = f.recv
+        if getattr(mm, "elem_spec", None) is None and not getattr(mm, "touched", False):
+            it.assume(n.t == 0)   # nothing was ever stored
+        v.seq = Seq(length=n.t, item=lambda i: VTuple([
+            VOpaque("mm_key"), it.fresh_list(getattr(mm, "elem_spec", None), "mm_val")]))
+        return v
+    B["amm.items"] = amm_items
+
+    def set_method(it, f, args, kw, node):
+        return atom(None)
+    for nm in ("add", "update", "discard", "clear"):
+        B["aset." + nm] = set_method
 
     # ------------------------------------------------------------------ havocked callbacks (A5)
     def b_callback(it, f, args, kw, node):
